@@ -351,7 +351,7 @@ impl Check for C15 {
     }
 
     fn cases(&self, tier: Tier) -> u64 {
-        tier.pick(16_000, 500_000)
+        tier.pick(48_000, 500_000)
     }
 
     fn rule(&self) -> String {
